@@ -218,7 +218,7 @@ def run(tier, V):
         V.inconclusive += 1
     # every code point
     step = 0x110000 // 64 + 1
-    res = pmap(check_classes, [(exe, lo, min(lo + step, 0x110000), W) for lo in range(1, 0x110000, step)])
+    res = pmap(check_classes, procs=True, items=[(exe, lo, min(lo + step, 0x110000), W) for lo in range(1, 0x110000, step)])
     ncp = sum(r[0] for r in res)
     classes = set()
     for n, bad, cl in res:
@@ -248,7 +248,7 @@ def run(tier, V):
         B = 500
         for i in range(0, len(lines), B):
             jobs.append((exe, o, lines[i:i + B], W))
-    res = pmap(check_lines, jobs)
+    res = pmap(check_lines, jobs, procs=True)
     nl = sum(r[0] for r in res)
     nontriv = sum(r[1] for r in res)
     for _, _, bad in res:
